@@ -107,9 +107,7 @@ def fd_pack_m_large_crc(direction: EnumOf(Direction), mode: EnumOf(TransmissionM
 
 # ------------------------------------------------------------------------------------------------ refusals
 
-@obligation(["C07"], "FileDataPdu.pack/refusals", verifies=[M + "FileDataPdu.pack", M + "FileDataPdu.__init__"])
-def fd_refusals(mode: EnumOf(TransmissionMode), crc: EnumOf(CrcFlag), large: EnumOf(LargeFileFlag), segctrl: EnumOf(SegmentationControl),
-                we: W, ws: W, src: Int, seq: Int, dst: Int, has_meta: Bool, state: STATE, meta: Bytes, offset: Int, data: Bytes):
+def refusal_case(mode, crc, large, segctrl, we, ws, src, seq, dst, has_meta, state, meta, offset, data):
     requires(ids_in_range(we, ws, src, seq, dst))
     requires(file_data_field_len(crc, large, has_meta, meta, data) <= 65535)
     conf = mk_conf(we, ws, src, seq, dst, mode, crc, large, Direction.TOWARDS_RECEIVER, segctrl)
@@ -122,6 +120,30 @@ def fd_refusals(mode: EnumOf(TransmissionMode), crc: EnumOf(CrcFlag), large: Enu
         ensures("ok-otherwise", o.ok == (not too_long))
     else:
         ensures("offset-not-fitting-fails", not o.ok)
+
+
+@obligation(["C07"], "FileDataPdu.pack/refusals/no-metadata/normal-file", verifies=[M + "FileDataPdu.pack", M + "FileDataPdu.__init__"])
+def fd_refusals_00(mode: EnumOf(TransmissionMode), crc: EnumOf(CrcFlag), segctrl: EnumOf(SegmentationControl),
+                we: W, ws: W, src: Int, seq: Int, dst: Int, offset: Int, data: Bytes):
+    refusal_case(mode, crc, NORMAL, segctrl, we, ws, src, seq, dst, False, S0, b"", offset, data)
+
+
+@obligation(["C07"], "FileDataPdu.pack/refusals/no-metadata/large-file", verifies=[M + "FileDataPdu.pack", M + "FileDataPdu.__init__"])
+def fd_refusals_01(mode: EnumOf(TransmissionMode), crc: EnumOf(CrcFlag), segctrl: EnumOf(SegmentationControl),
+                we: W, ws: W, src: Int, seq: Int, dst: Int, offset: Int, data: Bytes):
+    refusal_case(mode, crc, LARGE, segctrl, we, ws, src, seq, dst, False, S0, b"", offset, data)
+
+
+@obligation(["C07"], "FileDataPdu.pack/refusals/metadata/normal-file", verifies=[M + "FileDataPdu.pack", M + "FileDataPdu.__init__"])
+def fd_refusals_10(mode: EnumOf(TransmissionMode), crc: EnumOf(CrcFlag), segctrl: EnumOf(SegmentationControl),
+                we: W, ws: W, src: Int, seq: Int, dst: Int, state: STATE, meta: Bytes, offset: Int, data: Bytes):
+    refusal_case(mode, crc, NORMAL, segctrl, we, ws, src, seq, dst, True, state, meta, offset, data)
+
+
+@obligation(["C07"], "FileDataPdu.pack/refusals/metadata/large-file", verifies=[M + "FileDataPdu.pack", M + "FileDataPdu.__init__"])
+def fd_refusals_11(mode: EnumOf(TransmissionMode), crc: EnumOf(CrcFlag), segctrl: EnumOf(SegmentationControl),
+                we: W, ws: W, src: Int, seq: Int, dst: Int, state: STATE, meta: Bytes, offset: Int, data: Bytes):
+    refusal_case(mode, crc, LARGE, segctrl, we, ws, src, seq, dst, True, state, meta, offset, data)
 
 
 @obligation(["C07"], "FileDataPdu.__init__/data-field-over-65535", verifies=[M + "FileDataPdu.__init__"])
@@ -252,13 +274,43 @@ def fd_unpack_any_000_4_8(data: Bytes, we: Choice(4, 8), ws: W):
     unpack_any_case(data, we, ws, 0, 0, 0)
 
 
-@obligation(["C07", "C09", "C10", "C04"], "FileDataPdu.unpack/any/no-metadata/normal-file/crc/entity-id-width-1-2", verifies=V_UNPACK)
-def fd_unpack_any_001_1_2(data: Bytes, we: Choice(1, 2), ws: W):
+@obligation(["C07", "C09", "C10", "C04"], "FileDataPdu.unpack/any/no-metadata/normal-file/crc/entity-id-width-1/seq-num-width-1-2", verifies=V_UNPACK)
+def fd_unpack_any_001_1_1_2(data: Bytes, we: Choice(1), ws: Choice(1, 2)):
     unpack_any_case(data, we, ws, 0, 0, 1)
 
 
-@obligation(["C07", "C09", "C10", "C04"], "FileDataPdu.unpack/any/no-metadata/normal-file/crc/entity-id-width-4-8", verifies=V_UNPACK)
-def fd_unpack_any_001_4_8(data: Bytes, we: Choice(4, 8), ws: W):
+@obligation(["C07", "C09", "C10", "C04"], "FileDataPdu.unpack/any/no-metadata/normal-file/crc/entity-id-width-1/seq-num-width-4-8", verifies=V_UNPACK)
+def fd_unpack_any_001_1_4_8(data: Bytes, we: Choice(1), ws: Choice(4, 8)):
+    unpack_any_case(data, we, ws, 0, 0, 1)
+
+
+@obligation(["C07", "C09", "C10", "C04"], "FileDataPdu.unpack/any/no-metadata/normal-file/crc/entity-id-width-2/seq-num-width-1-2", verifies=V_UNPACK)
+def fd_unpack_any_001_2_1_2(data: Bytes, we: Choice(2), ws: Choice(1, 2)):
+    unpack_any_case(data, we, ws, 0, 0, 1)
+
+
+@obligation(["C07", "C09", "C10", "C04"], "FileDataPdu.unpack/any/no-metadata/normal-file/crc/entity-id-width-2/seq-num-width-4-8", verifies=V_UNPACK)
+def fd_unpack_any_001_2_4_8(data: Bytes, we: Choice(2), ws: Choice(4, 8)):
+    unpack_any_case(data, we, ws, 0, 0, 1)
+
+
+@obligation(["C07", "C09", "C10", "C04"], "FileDataPdu.unpack/any/no-metadata/normal-file/crc/entity-id-width-4/seq-num-width-1-2", verifies=V_UNPACK)
+def fd_unpack_any_001_4_1_2(data: Bytes, we: Choice(4), ws: Choice(1, 2)):
+    unpack_any_case(data, we, ws, 0, 0, 1)
+
+
+@obligation(["C07", "C09", "C10", "C04"], "FileDataPdu.unpack/any/no-metadata/normal-file/crc/entity-id-width-4/seq-num-width-4-8", verifies=V_UNPACK)
+def fd_unpack_any_001_4_4_8(data: Bytes, we: Choice(4), ws: Choice(4, 8)):
+    unpack_any_case(data, we, ws, 0, 0, 1)
+
+
+@obligation(["C07", "C09", "C10", "C04"], "FileDataPdu.unpack/any/no-metadata/normal-file/crc/entity-id-width-8/seq-num-width-1-2", verifies=V_UNPACK)
+def fd_unpack_any_001_8_1_2(data: Bytes, we: Choice(8), ws: Choice(1, 2)):
+    unpack_any_case(data, we, ws, 0, 0, 1)
+
+
+@obligation(["C07", "C09", "C10", "C04"], "FileDataPdu.unpack/any/no-metadata/normal-file/crc/entity-id-width-8/seq-num-width-4-8", verifies=V_UNPACK)
+def fd_unpack_any_001_8_4_8(data: Bytes, we: Choice(8), ws: Choice(4, 8)):
     unpack_any_case(data, we, ws, 0, 0, 1)
 
 
@@ -272,13 +324,43 @@ def fd_unpack_any_010_4_8(data: Bytes, we: Choice(4, 8), ws: W):
     unpack_any_case(data, we, ws, 0, 1, 0)
 
 
-@obligation(["C07", "C09", "C10", "C04"], "FileDataPdu.unpack/any/no-metadata/large-file/crc/entity-id-width-1-2", verifies=V_UNPACK)
-def fd_unpack_any_011_1_2(data: Bytes, we: Choice(1, 2), ws: W):
+@obligation(["C07", "C09", "C10", "C04"], "FileDataPdu.unpack/any/no-metadata/large-file/crc/entity-id-width-1/seq-num-width-1-2", verifies=V_UNPACK)
+def fd_unpack_any_011_1_1_2(data: Bytes, we: Choice(1), ws: Choice(1, 2)):
     unpack_any_case(data, we, ws, 0, 1, 1)
 
 
-@obligation(["C07", "C09", "C10", "C04"], "FileDataPdu.unpack/any/no-metadata/large-file/crc/entity-id-width-4-8", verifies=V_UNPACK)
-def fd_unpack_any_011_4_8(data: Bytes, we: Choice(4, 8), ws: W):
+@obligation(["C07", "C09", "C10", "C04"], "FileDataPdu.unpack/any/no-metadata/large-file/crc/entity-id-width-1/seq-num-width-4-8", verifies=V_UNPACK)
+def fd_unpack_any_011_1_4_8(data: Bytes, we: Choice(1), ws: Choice(4, 8)):
+    unpack_any_case(data, we, ws, 0, 1, 1)
+
+
+@obligation(["C07", "C09", "C10", "C04"], "FileDataPdu.unpack/any/no-metadata/large-file/crc/entity-id-width-2/seq-num-width-1-2", verifies=V_UNPACK)
+def fd_unpack_any_011_2_1_2(data: Bytes, we: Choice(2), ws: Choice(1, 2)):
+    unpack_any_case(data, we, ws, 0, 1, 1)
+
+
+@obligation(["C07", "C09", "C10", "C04"], "FileDataPdu.unpack/any/no-metadata/large-file/crc/entity-id-width-2/seq-num-width-4-8", verifies=V_UNPACK)
+def fd_unpack_any_011_2_4_8(data: Bytes, we: Choice(2), ws: Choice(4, 8)):
+    unpack_any_case(data, we, ws, 0, 1, 1)
+
+
+@obligation(["C07", "C09", "C10", "C04"], "FileDataPdu.unpack/any/no-metadata/large-file/crc/entity-id-width-4/seq-num-width-1-2", verifies=V_UNPACK)
+def fd_unpack_any_011_4_1_2(data: Bytes, we: Choice(4), ws: Choice(1, 2)):
+    unpack_any_case(data, we, ws, 0, 1, 1)
+
+
+@obligation(["C07", "C09", "C10", "C04"], "FileDataPdu.unpack/any/no-metadata/large-file/crc/entity-id-width-4/seq-num-width-4-8", verifies=V_UNPACK)
+def fd_unpack_any_011_4_4_8(data: Bytes, we: Choice(4), ws: Choice(4, 8)):
+    unpack_any_case(data, we, ws, 0, 1, 1)
+
+
+@obligation(["C07", "C09", "C10", "C04"], "FileDataPdu.unpack/any/no-metadata/large-file/crc/entity-id-width-8/seq-num-width-1-2", verifies=V_UNPACK)
+def fd_unpack_any_011_8_1_2(data: Bytes, we: Choice(8), ws: Choice(1, 2)):
+    unpack_any_case(data, we, ws, 0, 1, 1)
+
+
+@obligation(["C07", "C09", "C10", "C04"], "FileDataPdu.unpack/any/no-metadata/large-file/crc/entity-id-width-8/seq-num-width-4-8", verifies=V_UNPACK)
+def fd_unpack_any_011_8_4_8(data: Bytes, we: Choice(8), ws: Choice(4, 8)):
     unpack_any_case(data, we, ws, 0, 1, 1)
 
 
@@ -302,23 +384,43 @@ def fd_unpack_any_100_8(data: Bytes, we: Choice(8), ws: W):
     unpack_any_case(data, we, ws, 1, 0, 0)
 
 
-@obligation(["C07", "C09", "C10", "C04"], "FileDataPdu.unpack/any/metadata/normal-file/crc/entity-id-width-1", verifies=V_UNPACK)
-def fd_unpack_any_101_1(data: Bytes, we: Choice(1), ws: W):
+@obligation(["C07", "C09", "C10", "C04"], "FileDataPdu.unpack/any/metadata/normal-file/crc/entity-id-width-1/seq-num-width-1-2", verifies=V_UNPACK)
+def fd_unpack_any_101_1_1_2(data: Bytes, we: Choice(1), ws: Choice(1, 2)):
     unpack_any_case(data, we, ws, 1, 0, 1)
 
 
-@obligation(["C07", "C09", "C10", "C04"], "FileDataPdu.unpack/any/metadata/normal-file/crc/entity-id-width-2", verifies=V_UNPACK)
-def fd_unpack_any_101_2(data: Bytes, we: Choice(2), ws: W):
+@obligation(["C07", "C09", "C10", "C04"], "FileDataPdu.unpack/any/metadata/normal-file/crc/entity-id-width-1/seq-num-width-4-8", verifies=V_UNPACK)
+def fd_unpack_any_101_1_4_8(data: Bytes, we: Choice(1), ws: Choice(4, 8)):
     unpack_any_case(data, we, ws, 1, 0, 1)
 
 
-@obligation(["C07", "C09", "C10", "C04"], "FileDataPdu.unpack/any/metadata/normal-file/crc/entity-id-width-4", verifies=V_UNPACK)
-def fd_unpack_any_101_4(data: Bytes, we: Choice(4), ws: W):
+@obligation(["C07", "C09", "C10", "C04"], "FileDataPdu.unpack/any/metadata/normal-file/crc/entity-id-width-2/seq-num-width-1-2", verifies=V_UNPACK)
+def fd_unpack_any_101_2_1_2(data: Bytes, we: Choice(2), ws: Choice(1, 2)):
     unpack_any_case(data, we, ws, 1, 0, 1)
 
 
-@obligation(["C07", "C09", "C10", "C04"], "FileDataPdu.unpack/any/metadata/normal-file/crc/entity-id-width-8", verifies=V_UNPACK)
-def fd_unpack_any_101_8(data: Bytes, we: Choice(8), ws: W):
+@obligation(["C07", "C09", "C10", "C04"], "FileDataPdu.unpack/any/metadata/normal-file/crc/entity-id-width-2/seq-num-width-4-8", verifies=V_UNPACK)
+def fd_unpack_any_101_2_4_8(data: Bytes, we: Choice(2), ws: Choice(4, 8)):
+    unpack_any_case(data, we, ws, 1, 0, 1)
+
+
+@obligation(["C07", "C09", "C10", "C04"], "FileDataPdu.unpack/any/metadata/normal-file/crc/entity-id-width-4/seq-num-width-1-2", verifies=V_UNPACK)
+def fd_unpack_any_101_4_1_2(data: Bytes, we: Choice(4), ws: Choice(1, 2)):
+    unpack_any_case(data, we, ws, 1, 0, 1)
+
+
+@obligation(["C07", "C09", "C10", "C04"], "FileDataPdu.unpack/any/metadata/normal-file/crc/entity-id-width-4/seq-num-width-4-8", verifies=V_UNPACK)
+def fd_unpack_any_101_4_4_8(data: Bytes, we: Choice(4), ws: Choice(4, 8)):
+    unpack_any_case(data, we, ws, 1, 0, 1)
+
+
+@obligation(["C07", "C09", "C10", "C04"], "FileDataPdu.unpack/any/metadata/normal-file/crc/entity-id-width-8/seq-num-width-1-2", verifies=V_UNPACK)
+def fd_unpack_any_101_8_1_2(data: Bytes, we: Choice(8), ws: Choice(1, 2)):
+    unpack_any_case(data, we, ws, 1, 0, 1)
+
+
+@obligation(["C07", "C09", "C10", "C04"], "FileDataPdu.unpack/any/metadata/normal-file/crc/entity-id-width-8/seq-num-width-4-8", verifies=V_UNPACK)
+def fd_unpack_any_101_8_4_8(data: Bytes, we: Choice(8), ws: Choice(4, 8)):
     unpack_any_case(data, we, ws, 1, 0, 1)
 
 
@@ -342,23 +444,43 @@ def fd_unpack_any_110_8(data: Bytes, we: Choice(8), ws: W):
     unpack_any_case(data, we, ws, 1, 1, 0)
 
 
-@obligation(["C07", "C09", "C10", "C04"], "FileDataPdu.unpack/any/metadata/large-file/crc/entity-id-width-1", verifies=V_UNPACK)
-def fd_unpack_any_111_1(data: Bytes, we: Choice(1), ws: W):
+@obligation(["C07", "C09", "C10", "C04"], "FileDataPdu.unpack/any/metadata/large-file/crc/entity-id-width-1/seq-num-width-1-2", verifies=V_UNPACK)
+def fd_unpack_any_111_1_1_2(data: Bytes, we: Choice(1), ws: Choice(1, 2)):
     unpack_any_case(data, we, ws, 1, 1, 1)
 
 
-@obligation(["C07", "C09", "C10", "C04"], "FileDataPdu.unpack/any/metadata/large-file/crc/entity-id-width-2", verifies=V_UNPACK)
-def fd_unpack_any_111_2(data: Bytes, we: Choice(2), ws: W):
+@obligation(["C07", "C09", "C10", "C04"], "FileDataPdu.unpack/any/metadata/large-file/crc/entity-id-width-1/seq-num-width-4-8", verifies=V_UNPACK)
+def fd_unpack_any_111_1_4_8(data: Bytes, we: Choice(1), ws: Choice(4, 8)):
     unpack_any_case(data, we, ws, 1, 1, 1)
 
 
-@obligation(["C07", "C09", "C10", "C04"], "FileDataPdu.unpack/any/metadata/large-file/crc/entity-id-width-4", verifies=V_UNPACK)
-def fd_unpack_any_111_4(data: Bytes, we: Choice(4), ws: W):
+@obligation(["C07", "C09", "C10", "C04"], "FileDataPdu.unpack/any/metadata/large-file/crc/entity-id-width-2/seq-num-width-1-2", verifies=V_UNPACK)
+def fd_unpack_any_111_2_1_2(data: Bytes, we: Choice(2), ws: Choice(1, 2)):
     unpack_any_case(data, we, ws, 1, 1, 1)
 
 
-@obligation(["C07", "C09", "C10", "C04"], "FileDataPdu.unpack/any/metadata/large-file/crc/entity-id-width-8", verifies=V_UNPACK)
-def fd_unpack_any_111_8(data: Bytes, we: Choice(8), ws: W):
+@obligation(["C07", "C09", "C10", "C04"], "FileDataPdu.unpack/any/metadata/large-file/crc/entity-id-width-2/seq-num-width-4-8", verifies=V_UNPACK)
+def fd_unpack_any_111_2_4_8(data: Bytes, we: Choice(2), ws: Choice(4, 8)):
+    unpack_any_case(data, we, ws, 1, 1, 1)
+
+
+@obligation(["C07", "C09", "C10", "C04"], "FileDataPdu.unpack/any/metadata/large-file/crc/entity-id-width-4/seq-num-width-1-2", verifies=V_UNPACK)
+def fd_unpack_any_111_4_1_2(data: Bytes, we: Choice(4), ws: Choice(1, 2)):
+    unpack_any_case(data, we, ws, 1, 1, 1)
+
+
+@obligation(["C07", "C09", "C10", "C04"], "FileDataPdu.unpack/any/metadata/large-file/crc/entity-id-width-4/seq-num-width-4-8", verifies=V_UNPACK)
+def fd_unpack_any_111_4_4_8(data: Bytes, we: Choice(4), ws: Choice(4, 8)):
+    unpack_any_case(data, we, ws, 1, 1, 1)
+
+
+@obligation(["C07", "C09", "C10", "C04"], "FileDataPdu.unpack/any/metadata/large-file/crc/entity-id-width-8/seq-num-width-1-2", verifies=V_UNPACK)
+def fd_unpack_any_111_8_1_2(data: Bytes, we: Choice(8), ws: Choice(1, 2)):
+    unpack_any_case(data, we, ws, 1, 1, 1)
+
+
+@obligation(["C07", "C09", "C10", "C04"], "FileDataPdu.unpack/any/metadata/large-file/crc/entity-id-width-8/seq-num-width-4-8", verifies=V_UNPACK)
+def fd_unpack_any_111_8_4_8(data: Bytes, we: Choice(8), ws: Choice(4, 8)):
     unpack_any_case(data, we, ws, 1, 1, 1)
 
 
@@ -398,7 +520,7 @@ def fd_set_file_data(mode: EnumOf(TransmissionMode), crc: EnumOf(CrcFlag), large
                                    pdu.pdu_data_field_len == file_data_field_len(crc, large, has_meta, meta, data1)))
     ensures("as-fresh-octets", r == fresh.pack())
     ensures("as-fresh-state", both(same_state(pdu, fresh), pdu == fresh))
-    ensures("layout", r == file_data_octets(mode, crc, large, segctrl, we, ws, src, seq, dst, has_meta, state, meta, offset, data1))
+    # (fresh.pack() == file_data_octets(...) is what the FileDataPdu.pack obligations prove for every PDU)
 
 
 @obligation(["C07", "C11"], "FileDataPdu.segment_metadata(setter)",
@@ -420,7 +542,7 @@ def fd_set_metadata(mode: EnumOf(TransmissionMode), crc: EnumOf(CrcFlag), large:
                                    pdu.pdu_data_field_len == file_data_field_len(crc, large, has_meta1, meta1, data)))
     ensures("as-fresh-octets", r == fresh.pack())
     ensures("as-fresh-state", both(same_state(pdu, fresh), pdu == fresh))
-    ensures("layout", r == file_data_octets(mode, crc, large, segctrl, we, ws, src, seq, dst, has_meta1, state1, meta1, offset, data))
+    # (fresh.pack() == file_data_octets(...) is what the FileDataPdu.pack obligations prove for every PDU)
 
 
 @obligation(["C07", "C11"], "FileDataPdu/setters-after-unpack", verifies=[M + "FileDataPdu.unpack", M + "FileDataPdu.file_data",
